@@ -45,30 +45,29 @@ def toTree : Sym → Option Tree
       | some x, some y => some (.bin o x y)
       | _, _ => none
 
-theorem print_bin_nofold (o : BinOp) (l r : Sym) (h : (l.litVal.isSome && r.litVal.isSome) = false) :
-    (Sym.bin o l r).print = (do
-      let sl ← l.print; let sr ← r.print
+theorem str_bin_nofold (o : BinOp) (l r : Sym) (h : (l.litVal.isSome && r.litVal.isSome) = false) :
+    (Sym.bin o l r).str = (do
+      let sl ← l.str; let sr ← r.str
       pure (sl ++ [match o with | .add => '+' | .sub => '-' | .mul => '*' | .div => '/' | .exp => '^'] ++ sr)) := by
   cases hla : l.litVal with
-  | none => simp only [Sym.print, hla]; cases o <;> rfl
+  | none => simp only [Sym.str, hla]; cases o <;> rfl
   | some x =>
     cases hlb : r.litVal with
-    | none => simp only [Sym.print, hla, hlb]; cases o <;> rfl
+    | none => simp only [Sym.str, hla, hlb]; cases o <;> rfl
     | some y => simp [hla, hlb] at h
 
-theorem print_fn2_nofold (f : Fn) (a b : Sym) (h : (a.litVal.isSome && b.litVal.isSome) = false) :
-    (Sym.fn2 f a b).print = (do
-      let sa ← a.print; let sb ← b.print
+theorem str_fn2_nofold (f : Fn) (a b : Sym) (h : (a.litVal.isSome && b.litVal.isSome) = false) :
+    (Sym.fn2 f a b).str = (do
+      let sa ← a.str; let sb ← b.str
       pure ((match f with | .min => "min(" | .max => "max(" | .isqrt => "isqrt(").toList ++ sa ++ [','] ++ sb ++ [')'])) := by
   cases hla : a.litVal with
-  | none => simp only [Sym.print, hla]; cases f <;> rfl
+  | none => simp only [Sym.str, hla]; cases f <;> rfl
   | some x =>
     cases hlb : b.litVal with
-    | none => simp only [Sym.print, hla, hlb]; cases f <;> rfl
+    | none => simp only [Sym.str, hla, hlb]; cases f <;> rfl
     | some y => simp [hla, hlb] at h
 
-/-- where `toTree` is defined, the printer writes exactly the string of that tree … -/
-theorem print_is_tree_string (s : Sym) (t : Tree) (h : toTree s = some t) : s.print = .ok t.str := by
+theorem str_is_tree_string (s : Sym) (t : Tree) (h : toTree s = some t) : s.str = .ok t.str := by
   induction s generalizing t with
   | lit n =>
     simp only [toTree] at h
@@ -80,7 +79,7 @@ theorem print_is_tree_string (s : Sym) (t : Tree) (h : toTree s = some t) : s.pr
   | grp a ih =>
     simp only [toTree, Option.map_eq_some_iff] at h
     obtain ⟨ta, hta, rfl⟩ := h
-    simp [Sym.print, ih ta hta, Tree.str, bind, Except.bind, pure, Except.pure]
+    simp [Sym.str, ih ta hta, Tree.str, bind, Except.bind, pure, Except.pure]
   | isqrt a ih =>
     simp only [toTree] at h
     split at h
@@ -89,7 +88,7 @@ theorem print_is_tree_string (s : Sym) (t : Tree) (h : toTree s = some t) : s.pr
       simp only [Option.map_eq_some_iff] at h
       obtain ⟨ta, hta, rfl⟩ := h
       have hlv : a.litVal = none := by simpa using hl
-      simp [Sym.print, hlv, ih ta hta, Tree.str, kwIsqrt, bind, Except.bind, pure, Except.pure]
+      simp [Sym.str, hlv, ih ta hta, Tree.str, kwIsqrt, bind, Except.bind, pure, Except.pure]
   | fn2 f a b iha ihb =>
     simp only [toTree] at h
     split at h
@@ -106,7 +105,7 @@ theorem print_is_tree_string (s : Sym) (t : Tree) (h : toTree s = some t) : s.pr
           cases h
           have hnl : (a.litVal.isSome && b.litVal.isSome) = false := by
             cases h1 : a.litVal.isSome <;> cases h2 : b.litVal.isSome <;> simp_all
-          rw [print_fn2_nofold f a b hnl, iha ta hta, ihb tb htb]
+          rw [str_fn2_nofold f a b hnl, iha ta hta, ihb tb htb]
           cases f with
           | isqrt => exact absurd rfl hc.2
           | min => simp [Tree.str, fnName, kwMin, bind, Except.bind, pure, Except.pure]
@@ -125,8 +124,51 @@ theorem print_is_tree_string (s : Sym) (t : Tree) (h : toTree s = some t) : s.pr
           simp only [htl, htr] at h
           cases h
           have hnl : (l.litVal.isSome && r.litVal.isSome) = false := by simpa using hc
-          rw [print_bin_nofold o l r hnl, ihl tl htl, ihr tr htr]
+          rw [str_bin_nofold o l r hnl, ihl tl htl, ihr tr htr]
           cases o <;> simp [Tree.str, binChar, bind, Except.bind, pure, Except.pure]
+
+/-- an expression that is printed as a tree has no constant / anonymous operand -/
+theorem toTree_noBad (s : Sym) (t : Tree) (h : toTree s = some t) : s.hasBad = false := by
+  induction s generalizing t with
+  | lit n => rfl
+  | var x => rfl
+  | bad => simp [toTree] at h
+  | grp a ih =>
+    simp only [toTree, Option.map_eq_some_iff] at h
+    obtain ⟨ta, hta, _⟩ := h
+    exact ih ta hta
+  | isqrt a ih =>
+    simp only [toTree] at h
+    split at h
+    · cases h
+    · simp only [Option.map_eq_some_iff] at h
+      obtain ⟨ta, hta, _⟩ := h
+      exact ih ta hta
+  | fn2 f a b iha ihb =>
+    simp only [toTree] at h
+    split at h
+    · cases h
+    · cases hta : toTree a with
+      | none => simp [hta] at h
+      | some ta =>
+        cases htb : toTree b with
+        | none => simp [hta, htb] at h
+        | some tb => simp [Sym.hasBad, iha ta hta, ihb tb htb]
+  | bin o l r ihl ihr =>
+    simp only [toTree] at h
+    split at h
+    · cases h
+    · cases htl : toTree l with
+      | none => simp [htl] at h
+      | some tl =>
+        cases htr : toTree r with
+        | none => simp [htl, htr] at h
+        | some tr => simp [Sym.hasBad, ihl tl htl, ihr tr htr]
+
+/-- where `toTree` is defined, the printer writes exactly the string of that tree … -/
+theorem print_is_tree_string (s : Sym) (t : Tree) (h : toTree s = some t) : s.print = .ok t.str := by
+  simp only [Sym.print, toTree_noBad s t h, Bool.false_eq_true, if_false]
+  exact str_is_tree_string s t h
 
 /-- … and that tree has the value Python's evaluation of the operator expression gives -/
 theorem tree_value_is_python_value (s : Sym) (t : Tree) (h : toTree s = some t) (σ : Name → Option Int) :
@@ -201,15 +243,114 @@ theorem printed_string_means_python_value (s : Sym) (t : Tree) (h : toTree s = s
   · intro he
     exact ⟨t.str, print_is_tree_string s t h, he⟩
 
-/-- arithmetic on a constant / anonymous axis is refused -/
-theorem bad_operand_refused (o : BinOp) (x : Sym) :
-    (Sym.bin o x .bad).print = .error .typeError ∨ (∃ e, x.print = .error e) := by
-  cases hx : x.print with
-  | error e => exact Or.inr ⟨e, rfl⟩
-  | ok sx =>
-    left
-    simp only [Sym.print]
-    cases hl : x.litVal <;> simp [Sym.litVal, hx, bind, Except.bind]
+theorem bind_typeError {α} (x : Except PrintErr (List Char)) (f : List Char → Except PrintErr α)
+    (h : (x >>= f) = .error .typeError) : x = .error .typeError ∨ ∃ v, x = .ok v ∧ f v = .error .typeError := by
+  cases x with
+  | error e => left; simpa [bind, Except.bind] using h
+  | ok v => right; exact ⟨v, rfl, by simpa [bind, Except.bind] using h⟩
+
+/-- printing itself never raises TypeError -/
+theorem str_never_typeError (s : Sym) (hb : s.hasBad = false) (h : s.str = .error .typeError) : False := by
+  induction s with
+  | lit n => simp [Sym.str] at h
+  | var x => simp [Sym.str] at h
+  | bad => simp [Sym.hasBad] at hb
+  | grp a ih =>
+    simp only [Sym.hasBad] at hb
+    simp only [Sym.str] at h
+    rcases bind_typeError _ _ h with h1 | ⟨v, _, h2⟩
+    · exact ih hb h1
+    · simp [pure, Except.pure] at h2
+  | isqrt a ih =>
+    simp only [Sym.hasBad] at hb
+    simp only [Sym.str] at h
+    split at h
+    · split at h <;> simp at h
+    · rcases bind_typeError _ _ h with h1 | ⟨v, _, h2⟩
+      · exact ih hb h1
+      · simp [pure, Except.pure] at h2
+  | fn2 f a b iha ihb =>
+    simp only [Sym.hasBad, Bool.or_eq_false_iff] at hb
+    simp only [Sym.str] at h
+    split at h
+    · cases f <;> simp at h
+    · rcases bind_typeError _ _ h with h1 | ⟨v, _, h2⟩
+      · exact iha hb.1 h1
+      · rcases bind_typeError _ _ h2 with h3 | ⟨w, _, h4⟩
+        · exact ihb hb.2 h3
+        · simp [pure, Except.pure] at h4
+  | bin o l r ihl ihr =>
+    simp only [Sym.hasBad, Bool.or_eq_false_iff] at hb
+    simp only [Sym.str] at h
+    split at h
+    · cases o <;> simp at h
+      all_goals (split at h <;> simp at h)
+    · rcases bind_typeError _ _ h with h1 | ⟨v, _, h2⟩
+      · exact ihl hb.1 h1
+      · rcases bind_typeError _ _ h2 with h3 | ⟨w, _, h4⟩
+        · exact ihr hb.2 h3
+        · simp [pure, Except.pure] at h4
+
+/-- an operand position of an expression: the expression itself, or an operand position of one of its operands -/
+inductive Operand (x : Sym) : Sym → Prop
+  | here : Operand x x
+  | grp {a} : Operand x a → Operand x (.grp a)
+  | isqrt {a} : Operand x a → Operand x (.isqrt a)
+  | fn2l {f a b} : Operand x a → Operand x (.fn2 f a b)
+  | fn2r {f a b} : Operand x b → Operand x (.fn2 f a b)
+  | binl {o l r} : Operand x l → Operand x (.bin o l r)
+  | binr {o l r} : Operand x r → Operand x (.bin o l r)
+
+theorem hasBad_iff (s : Sym) : s.hasBad = true ↔ Operand .bad s := by
+  constructor
+  · intro h
+    induction s with
+    | lit n => cases h
+    | var x => cases h
+    | bad => exact .here
+    | grp a ih => exact .grp (ih h)
+    | isqrt a ih => exact .isqrt (ih h)
+    | fn2 f a b iha ihb =>
+      simp only [Sym.hasBad, Bool.or_eq_true] at h
+      rcases h with h | h
+      · exact .fn2l (iha h)
+      · exact .fn2r (ihb h)
+    | bin o l r ihl ihr =>
+      simp only [Sym.hasBad, Bool.or_eq_true] at h
+      rcases h with h | h
+      · exact .binl (ihl h)
+      · exact .binr (ihr h)
+  · intro h
+    induction h with
+    | here => rfl
+    | grp _ ih => exact ih
+    | isqrt _ ih => exact ih
+    | fn2l _ ih => simp [Sym.hasBad, ih]
+    | fn2r _ ih => simp [Sym.hasBad, ih]
+    | binl _ ih => simp [Sym.hasBad, ih]
+    | binr _ ih => simp [Sym.hasBad, ih]
+
+/-- **C18, last clause**: arithmetic on a constant / anonymous axis is refused with TypeError — wherever the axis sits in the
+    expression (either side, any depth, under `Group` / `ISqrt` / `Min` / `Max`), whatever else the expression contains
+    (a division by a literal zero elsewhere does not get to raise first: nothing is printed before everything is built), and
+    nothing else raises TypeError -/
+theorem bad_operand_refused (s : Sym) : s.print = .error .typeError ↔ Operand .bad s := by
+  rw [← hasBad_iff]
+  constructor
+  · intro h
+    cases hb : s.hasBad with
+    | true => rfl
+    | false =>
+      exfalso
+      simp only [Sym.print, hb, Bool.false_eq_true, if_false] at h
+      exact str_never_typeError s hb h
+  · intro h
+    simp [Sym.print, h]
+
+/-- non-vacuity, and the order of the two failures: `(1 // 0) + ConstantAxis` is a TypeError, not a ZeroDivisionError -/
+theorem example_bad_operand :
+    (Sym.bin .add (.bin .div (.lit 1) (.lit 0)) .bad).print = .error .typeError ∧
+    (Sym.bin .add (.bin .div (.lit 1) (.lit 0)) (.var ['a'])).print = .error .zeroDivision := ⟨rfl, rfl⟩
 
 /-- non-vacuity: `a - b ** Group(4 - z)` is printed as a well-formed tree -/
 theorem example_printable :
